@@ -4,7 +4,7 @@ CONSTANTS
   MinUnitsC = {"maa", "mbb"}
   RecordHist = FALSE
   Owners = {"u1", "u2"}
-  Symbols = {"aaa", "bbb"}
+  Symbols = {"aaa", "maa"}
   Scales = {1}
   Initials = {1}
   Maxes = {3}
